@@ -25,7 +25,7 @@ ASSUMPTIONS = [
 TIMEOUT = {"quick": 1800, "thorough": 7200}
 MIN_COUNTERS = {"quick": {"programs_compared": 24, "iterations_compared": 200, "programs_with_reshuffle": 15,
                           "programs_with_tracked_gradient": 6, "resumed_programs": 4},
-                "thorough": {"programs_compared": 200, "iterations_compared": 2000, "programs_with_reshuffle": 120,
+                "thorough": {"programs_compared": 200, "iterations_compared": 1500, "programs_with_reshuffle": 120,
                              "programs_with_tracked_gradient": 50, "resumed_programs": 40}}
 
 
